@@ -29,6 +29,9 @@ type directValue struct {
 	kids func(v any) [][]byte
 	// fresh receiver for the round trip (nil: none)
 	recv func() any
+	// refused: the encoder cannot represent the value and says so on the unchanged tree; an error is
+	// then a fine answer, and if an encoding is produced after all it must still have the reported size
+	refused bool
 }
 
 func mustDHCP(d *protocol.DHCP, err error) *protocol.DHCP {
@@ -71,6 +74,30 @@ func directValues() []directValue {
 		d.Options = append(d.Options, protocol.DHCPNewOption(protocol.DHCP_OPT_CLASS_ID, bytes.Repeat([]byte{7}, 253)))
 		return d
 	}).recv = func() any { return new(protocol.DHCP) }
+	// options longer than the one-byte option length can say: the encoder has to refuse the message, or
+	// else produce every byte it counted
+	for _, ol := range []int{254, 255, 256, 300, 600} {
+		for _, pos := range []string{"alone", "first", "middle", "last"} {
+			ol, pos := ol, pos
+			add(fmt.Sprintf("NewDHCP with a %d-byte option (%s)", ol, pos), "dhcp", func() any {
+				d := mustDHCP(protocol.NewDHCP(7, protocol.DHCP_MSG_ACK, protocol.DHCP_HW_ETHERNET))
+				big := protocol.DHCPNewOption(protocol.DHCP_OPT_CLASS_ID, bytes.Repeat([]byte{9}, ol))
+				o1, _ := protocol.DHCPStringOption(protocol.DHCP_OPT_HOST_NAME, "host-17")
+				o2 := protocol.DHCPNewOption(protocol.DHCP_OPT_CLIENT_ID, []byte{1, 2, 3, 4, 5, 6, 7})
+				switch pos {
+				case "alone":
+					d.Options = append(d.Options, big)
+				case "first":
+					d.Options = append(d.Options, big, o1, o2)
+				case "middle":
+					d.Options = append(d.Options, o1, big, o2)
+				case "last":
+					d.Options = append(d.Options, o1, o2, big)
+				}
+				return d
+			}).refused = true
+		}
+	}
 	// IGMP constructors
 	grp := net.IPv4(224, 0, 0, 251)
 	for _, g := range []struct {
@@ -198,6 +225,10 @@ func directSizes(r *ev.Run, ret *retained) int64 {
 			var err error
 			if pn := safePkt(func() { l0 = codec.Len(); b, err = codec.Encode(); l1 = codec.Len() }); pn != nil {
 				bad("panic:"+d.kind, fmt.Sprintf("sizing or encoding panicked: %v", pn))
+				continue
+			}
+			if err != nil && d.refused {
+				r.Add("refused_values", 1)
 				continue
 			}
 			if err != nil {
